@@ -280,7 +280,7 @@ def emit_trait(t):
             w("            let getter = v.%s();" % m.name)
             w("            if getter as usize != words[%d] { return Err((\"vtable:order\".into(), format!(\"word %d of the vtable of %s is not the entry for method `%s` (declaration order)\"))); }" % (j, j, t.name, m.name))
             w("            let f = unsafe { retype(&getter, words[%d]) };" % j)
-        if m.ret.startswith("int_") or m.ret == "no_int":
+        if m.ret.startswith("int_") or m.ret in ("no_int", "res_ie"):
             # the C signature of integer-coded results (extra out-parameter, i32 return) is itself what C03/C13 judge: this
             # check must keep compiling whatever the generator does with it, so the slot is compared but not called here
             w("            let _ = f;")
